@@ -39,6 +39,7 @@ rsync -a --exclude go.mod --exclude go.sum --exclude '*_test.go' --exclude bridg
 cp $V/sim/bridge/pfcpiface_zz_verif_bridge.go $SC/pfcpiface/zz_verif_bridge.go || exit 2
 [ -f $V/sim/bridge/metrics_zz_verif_bridge.go ] && cp $V/sim/bridge/metrics_zz_verif_bridge.go $SC/pfcpiface/metrics/zz_verif_bridge.go
 cp /repo/conf/p4/bin/p4info.txt $SC/zzverif/vsimenv/p4info.txt 2>/dev/null
+(cd $SC && $GO mod edit -require=github.com/anishathalye/porcupine@v1.3.0) >&2 || exit 2
 (cd $SC && $V/tools/vinstr/vinstr -root $SC -sites $SC/zzverif/vsim/sites_gen.go ./pfcpiface ./pfcpiface/metrics) >&2 || { echo "build.sh: instrumentation failed" >&2; exit 2; }
 mkdir -p $OUT
 if [ $need_plain = 1 ]; then
